@@ -536,3 +536,138 @@ ROUND6_MUTANTS = [
 ]
 TWINS = TWINS + ROUND6_TWINS
 MUTANTS = MUTANTS + ROUND6_MUTANTS
+
+# ---------------------------------------------------------------------------------------------------------------------
+# round 7 (seed C16-K): the typed accessor's setter / deleter and the explicit scalar setters take the branch that does not
+# write (delete / skip) for the sentinel None only - never on the truthiness of the value; read side: a loaded value that is
+# falsy (0) is a value.  Twins: 12 refactorings by a fresh author + own variants; mutants: the same shapes with the defect.
+ROUND7_TWINS = [
+    {"name": 'accessor-set-dumper-local-single-write', "edits": [
+        ('_internal.py', '        if self.dump_func is not None:\n            self.lookup(instance)[self.name] = self.dump_func(value)\n        else:\n            self.lookup(instance)[self.name] = value\n', '        dump = self.dump_func\n        stored = dump(value) if dump is not None else value\n        self.lookup(instance)[self.name] = stored\n'),
+    ]},
+    {"name": 'accessor-set-rebinds-value-then-one-store', "edits": [
+        ('_internal.py', '            self.lookup(instance)[self.name] = self.dump_func(value)\n        else:\n            self.lookup(instance)[self.name] = value\n', '            value = self.dump_func(value)  # type: ignore[assignment]\n\n        self.lookup(instance)[self.name] = value\n'),
+    ]},
+    {"name": 'accessor-writable-check-helper-none-branch-first', "edits": [
+        ('_internal.py', '    def __set__(self, instance: t.Any, value: _TAccessorValue) -> None:\n        if self.read_only:\n            raise AttributeError("read only property")\n\n        if self.dump_func is not None:\n            self.lookup(instance)[self.name] = self.dump_func(value)\n        else:\n            self.lookup(instance)[self.name] = value\n\n    def __delete__(self, instance: t.Any) -> None:\n        if self.read_only:\n            raise AttributeError("read only property")\n\n', '    def _check_writable(self) -> None:\n        if self.read_only:\n            raise AttributeError("read only property")\n\n    def __set__(self, instance: t.Any, value: _TAccessorValue) -> None:\n        self._check_writable()\n\n        if self.dump_func is None:\n            self.lookup(instance)[self.name] = value\n        else:\n            self.lookup(instance)[self.name] = self.dump_func(value)\n\n    def __delete__(self, instance: t.Any) -> None:\n        self._check_writable()\n'),
+    ]},
+    {"name": 'accessor-dump-load-helpers', "edits": [
+        ('_internal.py', '        value = storage[self.name]\n\n        if self.load_func is not None:\n            try:\n                return self.load_func(value)\n            except (ValueError, TypeError):\n                return self.default  # type: ignore\n\n        return value  # type: ignore\n\n    def __set__(self, instance: t.Any, value: _TAccessorValue) -> None:\n        if self.read_only:\n            raise AttributeError("read only property")\n\n        if self.dump_func is not None:\n            self.lookup(instance)[self.name] = self.dump_func(value)\n        else:\n            self.lookup(instance)[self.name] = value\n', '        return self._load(storage[self.name])\n\n    def _load(self, value: t.Any) -> _TAccessorValue:\n        if self.load_func is None:\n            return value  # type: ignore\n\n        try:\n            return self.load_func(value)\n        except (ValueError, TypeError):\n            return self.default  # type: ignore\n\n    def _dump(self, value: _TAccessorValue) -> t.Any:\n        if self.dump_func is None:\n            return value\n\n        return self.dump_func(value)\n\n    def __set__(self, instance: t.Any, value: _TAccessorValue) -> None:\n        if self.read_only:\n            raise AttributeError("read only property")\n\n        self.lookup(instance)[self.name] = self._dump(value)\n'),
+    ]},
+    {"name": 'accessor-name-local-storage-helper', "edits": [
+        ('_internal.py', '    @t.overload\n    def __get__(\n        self, instance: None, owner: type\n    ) -> _DictAccessorProperty[_TAccessorValue]: ...\n\n    @t.overload\n    def __get__(self, instance: t.Any, owner: type) -> _TAccessorValue: ...\n\n    def __get__(\n        self, instance: t.Any | None, owner: type\n    ) -> _TAccessorValue | _DictAccessorProperty[_TAccessorValue]:\n        if instance is None:\n            return self\n\n        storage = self.lookup(instance)\n\n        if self.name not in storage:\n            return self.default  # type: ignore\n\n        value = storage[self.name]\n\n        if self.load_func is not None:\n            try:\n                return self.load_func(value)\n            except (ValueError, TypeError):\n                return self.default  # type: ignore\n\n        return value  # type: ignore\n\n    def __set__(self, instance: t.Any, value: _TAccessorValue) -> None:\n        if self.read_only:\n            raise AttributeError("read only property")\n\n        if self.dump_func is not None:\n            self.lookup(instance)[self.name] = self.dump_func(value)\n        else:\n            self.lookup(instance)[self.name] = value\n\n    def __delete__(self, instance: t.Any) -> None:\n        if self.read_only:\n            raise AttributeError("read only property")\n\n        self.lookup(instance).pop(self.name, None)\n', '    def _storage(self, instance: t.Any) -> t.MutableMapping[str, t.Any]:\n        return self.lookup(instance)\n\n    @t.overload\n    def __get__(\n        self, instance: None, owner: type\n    ) -> _DictAccessorProperty[_TAccessorValue]: ...\n\n    @t.overload\n    def __get__(self, instance: t.Any, owner: type) -> _TAccessorValue: ...\n\n    def __get__(\n        self, instance: t.Any | None, owner: type\n    ) -> _TAccessorValue | _DictAccessorProperty[_TAccessorValue]:\n        if instance is None:\n            return self\n\n        name = self.name\n        storage = self._storage(instance)\n\n        if name not in storage:\n            return self.default  # type: ignore\n\n        value = storage[name]\n\n        if self.load_func is not None:\n            try:\n                return self.load_func(value)\n            except (ValueError, TypeError):\n                return self.default  # type: ignore\n\n        return value  # type: ignore\n\n    def __set__(self, instance: t.Any, value: _TAccessorValue) -> None:\n        if self.read_only:\n            raise AttributeError("read only property")\n\n        name = self.name\n\n        if self.dump_func is not None:\n            dumped: t.Any = self.dump_func(value)\n        else:\n            dumped = value\n\n        self._storage(instance)[name] = dumped\n\n    def __delete__(self, instance: t.Any) -> None:\n        if self.read_only:\n            raise AttributeError("read only property")\n\n        name = self.name\n        self._storage(instance).pop(name, None)\n'),
+    ]},
+    {"name": 'accessor-get-eafp-loader-outside-try', "edits": [
+        ('_internal.py', '        if self.name not in storage:\n            return self.default  # type: ignore\n\n        value = storage[self.name]\n', '        try:\n            value = storage[self.name]\n        except KeyError:\n            return self.default  # type: ignore\n'),
+    ]},
+    {"name": 'accessor-get-missing-sentinel-identity', "edits": [
+        ('_internal.py', '        if self.name not in storage:\n            return self.default  # type: ignore\n\n        value = storage[self.name]\n', '        value = storage.get(self.name, _missing)\n\n        if value is _missing:\n            return self.default  # type: ignore\n'),
+    ]},
+    {"name": 'accessor-get-guard-try-else-delete-storage-local', "edits": [
+        ('_internal.py', '        if self.load_func is not None:\n            try:\n                return self.load_func(value)\n            except (ValueError, TypeError):\n                return self.default  # type: ignore\n\n        return value  # type: ignore\n\n    def __set__(self, instance: t.Any, value: _TAccessorValue) -> None:\n        if self.read_only:\n            raise AttributeError("read only property")\n\n        if self.dump_func is not None:\n            self.lookup(instance)[self.name] = self.dump_func(value)\n        else:\n            self.lookup(instance)[self.name] = value\n\n    def __delete__(self, instance: t.Any) -> None:\n        if self.read_only:\n            raise AttributeError("read only property")\n\n        self.lookup(instance).pop(self.name, None)\n', '        load = self.load_func\n\n        if load is None:\n            return value  # type: ignore\n\n        try:\n            rv = load(value)\n        except (ValueError, TypeError):\n            return self.default  # type: ignore\n        else:\n            return rv\n\n    def __set__(self, instance: t.Any, value: _TAccessorValue) -> None:\n        if self.read_only:\n            raise AttributeError("read only property")\n\n        if self.dump_func is not None:\n            self.lookup(instance)[self.name] = self.dump_func(value)\n        else:\n            self.lookup(instance)[self.name] = value\n\n    def __delete__(self, instance: t.Any) -> None:\n        if self.read_only:\n            raise AttributeError("read only property")\n\n        storage = self.lookup(instance)\n        storage.pop(self.name, None)\n'),
+    ]},
+    {"name": 'retry-after-pop-plain-if', "edits": [
+        ('sansio/response.py', '            if "retry-after" in self.headers:\n                del self.headers["retry-after"]\n            return\n        elif isinstance(value, datetime):\n            value = http_date(value)\n        else:\n            value = str(value)\n', '            self.headers.pop("retry-after", None)\n            return\n\n        if isinstance(value, datetime):\n            value = http_date(value)\n        else:\n            value = str(value)\n\n'),
+    ]},
+    {"name": 'retry-after-not-none-first-write-once', "edits": [
+        ('sansio/response.py', '        if value is None:\n            if "retry-after" in self.headers:\n                del self.headers["retry-after"]\n            return\n        elif isinstance(value, datetime):\n            value = http_date(value)\n        else:\n            value = str(value)\n        self.headers["Retry-After"] = value\n', '        if value is not None:\n            if isinstance(value, datetime):\n                header_value = http_date(value)\n            else:\n                header_value = str(value)\n\n            self.headers["Retry-After"] = header_value\n        elif "retry-after" in self.headers:\n            del self.headers["retry-after"]\n'),
+    ]},
+    {"name": 'retry-after-datetime-first', "edits": [
+        ('sansio/response.py', '        if value is None:\n            if "retry-after" in self.headers:\n                del self.headers["retry-after"]\n            return\n        elif isinstance(value, datetime):\n            value = http_date(value)\n        else:\n            value = str(value)\n        self.headers["Retry-After"] = value\n', '        if isinstance(value, datetime):\n            text = http_date(value)\n        elif value is None:\n            if "retry-after" in self.headers:\n                del self.headers["retry-after"]\n\n            return\n        else:\n            text = str(value)\n\n        self.headers["Retry-After"] = text\n'),
+    ]},
+    {"name": 'retry-after-headers-local-guard-conditional-expression', "edits": [
+        ('sansio/response.py', '        if value is None:\n            if "retry-after" in self.headers:\n                del self.headers["retry-after"]\n            return\n        elif isinstance(value, datetime):\n            value = http_date(value)\n        else:\n            value = str(value)\n        self.headers["Retry-After"] = value\n', '        headers = self.headers\n\n        if value is None:\n            if "retry-after" in headers:\n                del headers["retry-after"]\n\n            return\n\n        headers["Retry-After"] = (\n            http_date(value) if isinstance(value, datetime) else str(value)\n        )\n'),
+    ]},
+    {"name": 'accessor-set-none-handled-apart-still-stored', "edits": [
+        ('_internal.py', '        if self.dump_func is not None:\n            self.lookup(instance)[self.name] = self.dump_func(value)\n        else:\n            self.lookup(instance)[self.name] = value\n', '        storage = self.lookup(instance)\n        if value is None:\n            storage[self.name] = self.dump_func(None) if self.dump_func is not None else None\n            return\n        dump = self.dump_func\n        storage[self.name] = value if dump is None else dump(value)\n'),
+        ('datastructures/accept.py', '            except (LookupError, ValueError):\n                # ValueError: the name contains a null character.\n', '            except LookupError:\n'),
+    ]},
+    {"name": 'accessor-set-write-helper-early-return', "edits": [
+        ('_internal.py', '        if self.dump_func is not None:\n            self.lookup(instance)[self.name] = self.dump_func(value)\n        else:\n            self.lookup(instance)[self.name] = value\n', '        self._write(self.lookup(instance), value)\n\n    def _write(self, storage: t.MutableMapping[str, t.Any], value: t.Any) -> None:\n        dump = self.dump_func\n        if dump is None:\n            storage[self.name] = value\n            return\n        storage[self.name] = dump(value)\n'),
+    ]},
+    {"name": 'accessor-delete-membership-then-del', "edits": [
+        ('_internal.py', '        self.lookup(instance).pop(self.name, None)\n', '        storage = self.lookup(instance)\n        if self.name in storage:\n            del storage[self.name]\n'),
+    ]},
+    {"name": 'accessor-delete-get-is-not-none-then-pop', "edits": [
+        ('_internal.py', '        self.lookup(instance).pop(self.name, None)\n', '        storage = self.lookup(instance)\n        if storage.get(self.name) is not None:\n            storage.pop(self.name)\n'),
+    ]},
+    {"name": 'accessor-delete-eafp-keyerror', "edits": [
+        ('_internal.py', '        self.lookup(instance).pop(self.name, None)\n', '        try:\n            del self.lookup(instance)[self.name]\n        except KeyError:\n            pass\n'),
+    ]},
+    {"name": 'retry-after-flipped-conditional-expression-pop', "edits": [
+        ('sansio/response.py', '        if value is None:\n            if "retry-after" in self.headers:\n                del self.headers["retry-after"]\n            return\n        elif isinstance(value, datetime):\n            value = http_date(value)\n        else:\n            value = str(value)\n        self.headers["Retry-After"] = value\n', '        if value is not None:\n            self.headers["Retry-After"] = http_date(value) if isinstance(value, datetime) else str(value)\n        else:\n            self.headers.pop("Retry-After", None)\n'),
+    ]},
+    {"name": 'retry-after-text-local-none-means-drop', "edits": [
+        ('sansio/response.py', '        if value is None:\n            if "retry-after" in self.headers:\n                del self.headers["retry-after"]\n            return\n        elif isinstance(value, datetime):\n            value = http_date(value)\n        else:\n            value = str(value)\n        self.headers["Retry-After"] = value\n', '        text: str | None = None\n        if isinstance(value, datetime):\n            text = http_date(value)\n        elif value is not None:\n            text = str(value)\n        if text is None:\n            self.headers.pop("Retry-After", None)\n        else:\n            self.headers["Retry-After"] = text\n'),
+    ]},
+    {"name": 'retry-after-set-remove-guard-clauses', "edits": [
+        ('sansio/response.py', '        if value is None:\n            if "retry-after" in self.headers:\n                del self.headers["retry-after"]\n            return\n        elif isinstance(value, datetime):\n            value = http_date(value)\n        else:\n            value = str(value)\n        self.headers["Retry-After"] = value\n', '        if isinstance(value, datetime):\n            self.headers.set("Retry-After", http_date(value))\n            return\n        if value is None:\n            self.headers.remove("Retry-After")\n            return\n        self.headers.set("Retry-After", str(value))\n'),
+    ]},
+    {"name": 'retry-after-put-or-drop-helper', "edits": [
+        ('sansio/response.py', '        if value is None:\n            if "retry-after" in self.headers:\n                del self.headers["retry-after"]\n            return\n        elif isinstance(value, datetime):\n            value = http_date(value)\n        else:\n            value = str(value)\n        self.headers["Retry-After"] = value\n', '        if isinstance(value, datetime):\n            text: str | None = http_date(value)\n        else:\n            text = None if value is None else str(value)\n        self._put_or_drop("Retry-After", text)\n\n    def _put_or_drop(self, name: str, text: str | None) -> None:\n        if text is not None:\n            self.headers[name] = text\n        elif name in self.headers:\n            del self.headers[name]\n'),
+    ]},
+]
+ROUND7_MUTANTS = [
+    {"name": 'shape:accessor-set-only-truthy-values-stored', "expect": 'R16.6', "edits": [
+        ('_internal.py', '        if self.dump_func is not None:\n            self.lookup(instance)[self.name] = self.dump_func(value)\n        else:\n            self.lookup(instance)[self.name] = value\n', '        if value:\n            storage = self.lookup(instance)\n            storage[self.name] = value if self.dump_func is None else self.dump_func(value)\n'),
+        ('datastructures/accept.py', '            except (LookupError, ValueError):\n                # ValueError: the name contains a null character.\n', '            except LookupError:\n'),
+    ]},
+    {"name": 'shape:accessor-set-drops-members-of-none-zero-empty', "expect": 'R16.6', "edits": [
+        ('_internal.py', '        if self.dump_func is not None:\n            self.lookup(instance)[self.name] = self.dump_func(value)\n        else:\n            self.lookup(instance)[self.name] = value\n', '        storage = self.lookup(instance)\n        if value in (None, 0, ""):\n            storage.pop(self.name, None)\n            return\n        if self.dump_func is not None:\n            value = self.dump_func(value)\n        storage[self.name] = value\n'),
+        ('datastructures/accept.py', '            except (LookupError, ValueError):\n                # ValueError: the name contains a null character.\n', '            except LookupError:\n'),
+    ]},
+    {"name": 'shape:accessor-set-none-or-equals-zero-deleted', "expect": 'R16.6', "edits": [
+        ('_internal.py', '        if self.dump_func is not None:\n', '        if value is None or value == 0:\n            del self.lookup(instance)[self.name]\n        elif self.dump_func is not None:\n'),
+        ('datastructures/accept.py', '            except (LookupError, ValueError):\n                # ValueError: the name contains a null character.\n', '            except LookupError:\n'),
+    ]},
+    {"name": 'shape:accessor-set-drops-when-dumped-text-falsy', "expect": 'R16.6', "edits": [
+        ('_internal.py', '        if self.dump_func is not None:\n            self.lookup(instance)[self.name] = self.dump_func(value)\n        else:\n            self.lookup(instance)[self.name] = value\n', '        dumped = self.dump_func(value) if self.dump_func is not None else value\n        if not dumped:\n            self.lookup(instance).pop(self.name, None)\n        else:\n            self.lookup(instance)[self.name] = dumped\n'),
+        ('datastructures/accept.py', '            except (LookupError, ValueError):\n                # ValueError: the name contains a null character.\n', '            except LookupError:\n'),
+    ]},
+    {"name": 'shape:accessor-set-stored-then-deleted-when-falsy', "expect": 'R16.6', "edits": [
+        ('_internal.py', '            self.lookup(instance)[self.name] = value\n', '            self.lookup(instance)[self.name] = value\n        if not value:\n            del self.lookup(instance)[self.name]\n'),
+        ('datastructures/accept.py', '            except (LookupError, ValueError):\n                # ValueError: the name contains a null character.\n', '            except LookupError:\n'),
+    ]},
+    {"name": 'shape:accessor-set-stored-then-popped-when-falsy', "expect": 'R16.6', "edits": [
+        ('_internal.py', '        if self.dump_func is not None:\n            self.lookup(instance)[self.name] = self.dump_func(value)\n        else:\n            self.lookup(instance)[self.name] = value\n', '        storage = self.lookup(instance)\n        if self.dump_func is not None:\n            storage[self.name] = self.dump_func(value)\n        else:\n            storage[self.name] = value\n        if not value:\n            storage.pop(self.name)\n'),
+        ('datastructures/accept.py', '            except (LookupError, ValueError):\n                # ValueError: the name contains a null character.\n', '            except LookupError:\n'),
+    ]},
+    {"name": 'shape:accessor-write-helper-drops-falsy-but-false', "expect": 'R16.6', "edits": [
+        ('_internal.py', '        if self.dump_func is not None:\n            self.lookup(instance)[self.name] = self.dump_func(value)\n        else:\n            self.lookup(instance)[self.name] = value\n', '        self._write(self.lookup(instance), value)\n\n    def _write(self, storage: t.MutableMapping[str, t.Any], value: t.Any) -> None:\n        if not value and value is not False:\n            storage.pop(self.name, None)\n            return\n        dump = self.dump_func\n        if dump is None:\n            storage[self.name] = value\n            return\n        storage[self.name] = dump(value)\n'),
+    ]},
+    {"name": 'shape:accessor-delete-only-truthy-text', "expect": 'R16.6', "edits": [
+        ('_internal.py', '        self.lookup(instance).pop(self.name, None)\n', '        storage = self.lookup(instance)\n        if storage.get(self.name):\n            del storage[self.name]\n'),
+    ]},
+    {"name": 'shape:accessor-delete-present-and-truthy', "expect": 'R16.6', "edits": [
+        ('_internal.py', '        self.lookup(instance).pop(self.name, None)\n', '        storage = self.lookup(instance)\n        if self.name in storage and storage[self.name]:\n            storage.pop(self.name)\n'),
+    ]},
+    {"name": 'shape:accessor-delete-pops-default', "expect": 'R16.6', "edits": [
+        ('_internal.py', '        self.lookup(instance).pop(self.name, None)\n', '        self.lookup(instance).pop(self.default, None)\n'),
+    ]},
+    {"name": 'shape:accessor-get-loaded-or-default', "expect": 'R16.6', "edits": [
+        ('_internal.py', '                return self.load_func(value)\n', '                return self.load_func(value) or self.default\n'),
+        ('datastructures/accept.py', '            except (LookupError, ValueError):\n                # ValueError: the name contains a null character.\n', '            except LookupError:\n'),
+    ]},
+    {"name": 'shape:accessor-get-falsy-loaded-gives-default', "expect": 'R16.6', "edits": [
+        ('_internal.py', '                return self.load_func(value)\n', '                rv = self.load_func(value)\n                if not rv:\n                    return self.default\n                return rv\n'),
+        ('datastructures/accept.py', '            except (LookupError, ValueError):\n                # ValueError: the name contains a null character.\n', '            except LookupError:\n'),
+    ]},
+    {"name": 'shape:retry-after-not-value-deletes', "expect": 'R16.6', "edits": [
+        ('sansio/response.py', '    def retry_after(self, value: datetime | int | str | None) -> None:\n        if value is None:\n', '    def retry_after(self, value: datetime | int | str | None) -> None:\n        if not value:\n'),
+        ('datastructures/accept.py', '            except (LookupError, ValueError):\n                # ValueError: the name contains a null character.\n', '            except LookupError:\n'),
+    ]},
+    {"name": 'shape:retry-after-truthy-writes-else-pop', "expect": 'R16.6', "edits": [
+        ('sansio/response.py', '        if value is None:\n            if "retry-after" in self.headers:\n                del self.headers["retry-after"]\n            return\n        elif isinstance(value, datetime):\n            value = http_date(value)\n        else:\n            value = str(value)\n        self.headers["Retry-After"] = value\n', '        if value:\n            self.headers["Retry-After"] = http_date(value) if isinstance(value, datetime) else str(value)\n        else:\n            self.headers.pop("Retry-After", None)\n'),
+    ]},
+    {"name": 'shape:retry-after-members-of-none-zero-empty', "expect": 'R16.6', "edits": [
+        ('sansio/response.py', '        if value is None:\n            if "retry-after" in self.headers:\n                del self.headers["retry-after"]\n            return\n        elif isinstance(value, datetime):\n            value = http_date(value)\n        else:\n            value = str(value)\n        self.headers["Retry-After"] = value\n', '        if value in (None, 0, ""):\n            self.headers.pop("Retry-After", None)\n            return\n        text = http_date(value) if isinstance(value, datetime) else str(value)\n        self.headers["Retry-After"] = text\n'),
+    ]},
+    {"name": 'shape:retry-after-datetime-first-then-truthiness', "expect": 'R16.6', "edits": [
+        ('sansio/response.py', '        if value is None:\n            if "retry-after" in self.headers:\n                del self.headers["retry-after"]\n            return\n        elif isinstance(value, datetime):\n            value = http_date(value)\n        else:\n            value = str(value)\n        self.headers["Retry-After"] = value\n', '        if isinstance(value, datetime):\n            self.headers["Retry-After"] = http_date(value)\n        elif value:\n            self.headers["Retry-After"] = str(value)\n        elif "retry-after" in self.headers:\n            del self.headers["retry-after"]\n'),
+    ]},
+    {"name": 'shape:retry-after-helper-text-none-for-falsy', "expect": 'R16.6', "edits": [
+        ('sansio/response.py', '        if value is None:\n            if "retry-after" in self.headers:\n                del self.headers["retry-after"]\n            return\n        elif isinstance(value, datetime):\n            value = http_date(value)\n        else:\n            value = str(value)\n        self.headers["Retry-After"] = value\n', '        if isinstance(value, datetime):\n            text: str | None = http_date(value)\n        else:\n            text = str(value) if value else None\n        self._put_or_drop("Retry-After", text)\n\n    def _put_or_drop(self, name: str, text: str | None) -> None:\n        if text is not None:\n            self.headers[name] = text\n        elif name in self.headers:\n            del self.headers[name]\n'),
+    ]},
+]
+TWINS = TWINS + ROUND7_TWINS
+MUTANTS = MUTANTS + ROUND7_MUTANTS
